@@ -186,6 +186,38 @@ fn check(c: &Case, st: &mut Stats) -> CheckResult {
             st.label("target-with-magnitude");
         }
     }
+    // 5b. the displayed text, read back as an input, is a quantity in the factors of U (the
+    // comparison above uses numbat's own unit formatter on both sides; this one does not). A
+    // display that does not parse is C13/C14's business and only counted here.
+    // Units displayed through a symbol alias (″, ′, °, %) do not read back as identifiers — that
+    // is the recorded C13 finding (`R″` is read as R × ″) and not this property's business.
+    let symbol_in_display = t
+        .unit_display
+        .chars()
+        .any(|c| !(c.is_alphanumeric() || "_·/()^ ⁻⁰¹²³⁴⁵⁶⁷⁸⁹-".contains(c)));
+    if symbol_in_display {
+        st.label("display-with-symbol-alias (see C13)");
+    } else {
+        let mut scratch = ctx.clone();
+        let rb = eval(&mut scratch, &format!("let xx_rb = {text}"));
+        match (rb.ok(), scratch.verif_raw_global("xx_rb")) {
+            (true, Some(VValue::Quantity(rq))) => {
+                let key = |f: &numbat::verif_hooks::VFactor| (f.unit.clone(), format!("{:?}", f.prefix), f.exponent);
+                let mut got: Vec<_> = rq.factors.iter().map(key).collect();
+                let mut want: Vec<_> = t.factors.iter().map(key).collect();
+                got.sort();
+                want.sort();
+                if got != want {
+                    return Err(Failure::new(
+                        "displayed-form-reads-back-in-another-unit",
+                        format!("`q -> U` is displayed as `{text}`, which reads back in the unit `{}` instead of `{}`; {desc}", rq.unit_display, t.unit_display),
+                    ));
+                }
+                st.label("display-read-back");
+            }
+            _ => st.label("displayed-form-not-readable (see C13/C14)"),
+        }
+    }
     // 6. a converted value converted again: the unit requested last is the one displayed
     // (the multiple-of-target form of an earlier `-> k U` must not survive)
     let back = eval(&mut ctx, &format!("(xx_q -> {rhs}) -> {}", c.q_unit));
